@@ -189,6 +189,7 @@ def evaluate(mut, slot_dirs, args, pf):
             res["status"] = "killed_by_suite"
             return res
         props = args.props.split(",") if args.props else pf.get(mut["file"], [])
+        props = [p for p in props if p not in mut.get("skip_props", [])]
         res["checks"] = {}
         res["status"] = "survived"
         for p in props:
@@ -233,6 +234,7 @@ def main():
     ap.add_argument("--check-seed", type=int, default=0)
     ap.add_argument("--min-passed", type=int, default=82 - 0)
     ap.add_argument("--list", action="store_true")
+    ap.add_argument("--recheck", action="store_true", help="second pass: run the survivors of results.jsonl against ALL properties (results2.jsonl)")
     args = ap.parse_args()
     args.out = os.path.abspath(args.out)
     os.makedirs(args.out, exist_ok=True)
@@ -260,6 +262,18 @@ def main():
     rng.shuffle(muts)
     done = set()
     resfile = os.path.join(args.out, "results.jsonl")
+    if args.recheck:
+        surv = {}
+        for l in open(resfile):
+            r = json.loads(l)
+            if r["status"] == "survived":
+                surv[r["id"]] = r
+        resfile = os.path.join(args.out, "results2.jsonl")
+        muts = [m for m in muts if m["id"] in surv]
+        for m in muts:
+            m["skip_props"] = list(surv[m["id"]].get("checks", {}).keys())
+        args.props = ",".join(f"C{i:02d}" for i in range(1, 21))
+        args.max = len(muts)
     if os.path.exists(resfile):
         for l in open(resfile):
             done.add(json.loads(l)["id"])
